@@ -95,7 +95,7 @@ def judge(wd, nn, recs, *, seeds=(1, 2), tag="tvx"):
     by_id = {r["id"]: r for r in recs}
     chunks = [recs[i::NCPU] for i in range(NCPU)]
     groups = [calc_group(nn, [strip(r) for r in c]) for c in chunks if c]
-    vs, st = tv.validate(wd, groups, seeds=seeds, layout="clique", tag=tag)
+    vs, st = tv.validate(wd, groups, seeds=seeds, layout="clique", fam="F", tag=tag)
     return vs, st, by_id
 
 
